@@ -363,4 +363,130 @@ theorem numCore_backward (fuel order : Nat) (h start stop s : Int) (listening : 
     have hnle : ¬ start ≤ stop := by omega
     simp [hmarch, mkRange, hne, e1, e2, Except.map, hnle]
 
+/-! ### own points of a sorted ephemeris; iterating a `DateRange` object -/
+
+/-- `Ephem.__init__` sorts its points by date: the loop `for orb in self: if date < start: continue; if date > stop: break`
+yields exactly the tabulated dates within `[start, stop]` -/
+theorem ownPts_sorted (lo hi : Int) (l : List Int) (h : l.Pairwise (· ≤ ·)) :
+    ownPts lo hi l = l.filter (fun d => decide (lo ≤ d) && decide (d ≤ hi)) := by
+  induction l with
+  | nil => rfl
+  | cons d r ih =>
+    rw [List.pairwise_cons] at h
+    by_cases h1 : d < lo
+    · have : ¬ lo ≤ d := by omega
+      simp [ownPts, h1, this, ih h.2]
+    · by_cases h2 : d > hi
+      · have hn : r.filter (fun d => decide (lo ≤ d) && decide (d ≤ hi)) = [] := by
+          rw [List.filter_eq_nil_iff]
+          intro x hx
+          have := h.1 x hx
+          simp only [Bool.and_eq_true, decide_eq_true_eq, not_and, not_le]
+          intro _; omega
+        have : ¬ d ≤ hi := by omega
+        simp [ownPts, h1, h2, this, hn]
+      · have a1 : lo ≤ d := by omega
+        have a2 : d ≤ hi := by omega
+        simp [ownPts, h1, h2, a1, a2, ih h.2]
+
+/-- the backward loop over the reversed (descending) points yields the tabulated dates within `[stop, start]`, last first -/
+theorem ownPtsBack_sorted (hi lo : Int) (l : List Int) (h : l.Pairwise (· ≥ ·)) :
+    ownPtsBack hi lo l = l.filter (fun d => decide (lo ≤ d) && decide (d ≤ hi)) := by
+  induction l with
+  | nil => rfl
+  | cons d r ih =>
+    rw [List.pairwise_cons] at h
+    by_cases h1 : d > hi
+    · have : ¬ d ≤ hi := by omega
+      simp [ownPtsBack, h1, this, ih h.2]
+    · by_cases h2 : d < lo
+      · have hn : r.filter (fun d => decide (lo ≤ d) && decide (d ≤ hi)) = [] := by
+          rw [List.filter_eq_nil_iff]
+          intro x hx
+          have := h.1 x hx
+          simp only [Bool.and_eq_true, decide_eq_true_eq, not_and, not_le]
+          intro _; omega
+        have : ¬ lo ≤ d := by omega
+        simp [ownPtsBack, h1, h2, this, hn]
+      · have a1 : lo ≤ d := by omega
+        have a2 : d ≤ hi := by omega
+        simp [ownPtsBack, h1, h2, a1, a2, ih h.2]
+
+/-- a loop whose `propagate` succeeds on every date the bare loop yields, yields the same -/
+theorem loop_ok_of_yes (cond ok : Int → Bool) (step : Int) : ∀ (fuel : Nat) (start : Int),
+    (∀ d ∈ (loop cond yes step fuel start).dates, ok d = true) → loop cond ok step fuel start = loop cond yes step fuel start := by
+  intro fuel
+  induction fuel with
+  | zero => intro start _; rfl
+  | succ f ih =>
+    intro start h
+    by_cases hc : cond start = true
+    · simp only [loop, hc, if_true, yes] at h ⊢
+      have h0 : ok start = true := h start (by simp [Run.cons])
+      have := ih (start + step) (fun d hd => h d (by simp [Run.cons, hd]))
+      simp [h0, this]
+    · simp [loop, hc]
+
+/-- the dates a forward `DateRange` yields lie between its start and its stop -/
+theorem loop_range_mem_up (s1 st : Int) (incl : Bool) (hs : 0 < st) : ∀ (fuel : Nat) (start d : Int),
+    d ∈ (loop (rangeCond s1 st incl) yes st fuel start).dates → start ≤ d ∧ d ≤ s1 := by
+  intro fuel
+  induction fuel with
+  | zero => intro start d h; simp [loop] at h
+  | succ f ih =>
+    intro start d h
+    by_cases hc : rangeCond s1 st incl start = true
+    · simp only [loop, hc, if_true, yes, Run.cons, List.mem_cons] at h
+      have hle : start ≤ s1 := by
+        unfold rangeCond at hc
+        simp only [hs, if_true] at hc
+        cases incl <;> simp at hc <;> omega
+      rcases h with rfl | h
+      · exact ⟨le_refl _, hle⟩
+      · have := ih (start + st) d h
+        exact ⟨by omega, this.2⟩
+    · simp [loop, hc] at h
+
+/-- … and for a backward `DateRange` between its stop and its start -/
+theorem loop_range_mem_down (s1 st : Int) (incl : Bool) (hs : st < 0) : ∀ (fuel : Nat) (start d : Int),
+    d ∈ (loop (rangeCond s1 st incl) yes st fuel start).dates → s1 ≤ d ∧ d ≤ start := by
+  intro fuel
+  induction fuel with
+  | zero => intro start d h; simp [loop] at h
+  | succ f ih =>
+    intro start d h
+    by_cases hc : rangeCond s1 st incl start = true
+    · simp only [loop, hc, if_true, yes, Run.cons, List.mem_cons] at h
+      have hle : s1 ≤ start := by
+        unfold rangeCond at hc
+        have : ¬ st > 0 := by omega
+        simp only [this, if_false] at hc
+        cases incl <;> simp at hc <;> omega
+      rcases h with rfl | h
+      · exact ⟨hle, le_refl _⟩
+      · have := ih (start + st) d h
+        exact ⟨this.1, by omega⟩
+    · simp [loop, hc] at h
+
+/-- `KeplerNum._iter` with the dates of a backward `DateRange` (or any dates spanning `stop … start`, `stop < start`): the grid
+`start − k·h` is integrated down to stop and to `order` points, sorted, and `Ephem.iter` is given the dates -/
+theorem numCore_backward_dates (fuel order : Nat) (h start stop : Int) (ds : Dates) (listening : Bool) (m : Nat)
+    (hbw : stop < start) (hm : start + (m : Int) * (-h) ≤ stop) (hmo : order ≤ m + 1) (hf : m < fuel) :
+    ∃ m' : Nat, start + (m' : Int) * (-h) ≤ stop ∧ order ≤ m' + 1 ∧
+      numCore fuel order h start stop none (some ds) listening
+        = (true, ephemIter fuel order (grid start (-h) m').reverse (some ds) none none none true) := by
+  have hb : decide (stop < start) = true := by simp; omega
+  obtain ⟨m', _, hmarch, hfar, hord⟩ := march_some true ((some ds).isSome || (none : Option Int).isSome || listening) order (-h) stop m 1
+    start fuel (by simpa using hm) (fun _ => by omega) hf
+  simp only [if_true, decide_eq_false_iff_not, not_lt, gt_iff_lt] at hfar
+  refine ⟨m', hfar, by have := hord (by simp); omega, ?_⟩
+  unfold numCore
+  simp only [hb, if_true]
+  cases hmm : march true ((some ds).isSome || (none : Option Int).isSome || listening) order (-h) stop fuel 1 start with
+  | none => rw [hmm] at hmarch; simp at hmarch
+  | some more =>
+    rw [hmm] at hmarch
+    simp only [Option.map_some, Option.some.injEq] at hmarch
+    simp [hmarch]
+
 end BeyondVerif.Iter
